@@ -13,7 +13,7 @@ and parse_op (s : string) : Peers.pop =
   match split_on ':' s with
   | ["I"; i] -> Peers.PInsert (n_of_hex i)
   | ["X"; i] -> Peers.PRemove (n_of_hex i)
-  | ["L"; i; k] -> Peers.PAlias (n_of_hex i, n_of_hex k)
+  | ["L"; i; k] | ["S"; i; k] -> Peers.PAlias (n_of_hex i, n_of_hex k)
   | ["B"] -> Peers.PBroadcast
   | _ -> failwith ("bad op " ^ s)
 
@@ -38,8 +38,108 @@ let parse_step (s : string) : Peers.pobs =
       b_key_for = Stdlib.List.map optn (split_on ',' kf) }
   | _ -> failwith ("bad step " ^ trunc s)
 
+(* ---- concurrent histories (k=conc): mutators and queries on one shared registry ---- *)
+type cop = M of Peers.pop | QGet of BinNums.coq_N | QBy of BinNums.coq_N | QAliases of BinNums.coq_N
+         | QKeyFor of BinNums.coq_N | QLen
+type cres = RO of Peers.pout | RB of bool | RK of BinNums.coq_N option | RL of BinNums.coq_N list | RN of BinNums.coq_N
+type cev = { op : cop; s : int; e : int; res : cres }
+
+let parse_cop (s : string) : cop =
+  match split_on ':' s with
+  | ["G"; i] -> QGet (n_of_hex i) | ["Y"; k] -> QBy (n_of_hex k) | ["A"; i] -> QAliases (n_of_hex i)
+  | ["F"; i] -> QKeyFor (n_of_hex i) | ["N"] -> QLen
+  | _ -> M (parse_op s)
+
+let parse_cres (s : string) : cres =
+  let rest = String.sub s 1 (String.length s - 1) in
+  match s.[0] with
+  | 'g' -> RB (rest = "1") | 'y' -> RK (optn rest) | 'a' -> RL (nlist rest) | 'f' -> RK (optn rest)
+  | 'n' -> RN (n_of_hex rest)
+  | _ -> RO (parse_out s)
+
+(* "s.e.out": only the first two dots separate *)
+let parse_cev (op : cop) (r : string) : cev =
+  let i = String.index r '.' in let j = String.index_from r (i + 1) '.' in
+  { op; s = int_of_string ("0x" ^ String.sub r 0 i); e = int_of_string ("0x" ^ String.sub r (i + 1) (j - i - 1));
+    res = parse_cres (String.sub r (j + 1) (String.length r - j - 1)) }
+
+(* the answer of a query in a state, through the extracted observation function *)
+let query (obs : BinNums.coq_N list -> BinNums.coq_N list -> Peers.pobs) (q : cop) : cres =
+  let hd l = match l with x :: _ -> x | [] -> failwith "empty observation" in
+  match q with
+  | QGet i -> RB (hd (obs [i] []).Peers.b_present)
+  | QBy k -> RK (hd (obs [] [k]).Peers.b_by_key)
+  | QAliases i -> RL (hd (obs [i] []).Peers.b_aliases)
+  | QKeyFor i -> RK (hd (obs [i] []).Peers.b_key_for)
+  | QLen -> RN (obs [] []).Peers.b_len
+  | M _ -> failwith "not a query"
+
+(* Wing-Gong search: an order of all operations that respects real time (a before b when a
+   responded before b was invoked), gives every observed result and ends in the observed state *)
+let linearizable (type st) (mut : st -> Peers.pop -> st * Peers.pout)
+    (obs : st -> BinNums.coq_N list -> BinNums.coq_N list -> Peers.pobs)
+    (init : st) (ths : cev array array) (final_ok : st -> bool) : bool =
+  let n = Array.length ths in
+  let seen = Hashtbl.create 256 in
+  let rec go (pos : int list) (st : st) : bool =
+    let posa = Array.of_list pos in
+    let fin = ref true in
+    Array.iteri (fun t p -> if p < Array.length ths.(t) then fin := false) posa;
+    if !fin then final_ok st
+    else if Hashtbl.mem seen (pos, st) then false
+    else begin
+      Hashtbl.add seen (pos, st) ();
+      let ok = ref false in
+      for t = 0 to n - 1 do
+        if not !ok && posa.(t) < Array.length ths.(t) then begin
+          let a = ths.(t).(posa.(t)) in
+          let minimal = ref true in
+          for u = 0 to n - 1 do
+            if u <> t && posa.(u) < Array.length ths.(u) && ths.(u).(posa.(u)).e < a.s then minimal := false
+          done;
+          if !minimal then begin
+            let (st', r) = (match a.op with
+                | M o -> let (st', r) = mut st o in (st', RO r)
+                | q -> (st, query (obs st) q)) in
+            if r = a.res then ok := go (Stdlib.List.mapi (fun i p -> if i = t then p + 1 else p) pos) st'
+          end
+        end
+      done;
+      !ok
+    end in
+  go (Stdlib.List.init n (fun _ -> 0)) init
+
+let step_conc f o =
+  let ids = nlist (get f "ids") and keys = nlist (get f "keys") in
+  let pre = let s = get f "pre" in if s = "-" then [] else Stdlib.List.map parse_op (split_on ';' s) in
+  let thops = Stdlib.List.map (fun t -> if t = "-" then [] else Stdlib.List.map parse_cop (split_on ';' t)) (split_on '!' (get f "th")) in
+  let out = ref [] in
+  (match get_opt o "crash" with
+   | Some c -> out := ("BAD\tside=impl\tclause=crash:" ^ c) :: !out
+   | None ->
+     let res = Stdlib.List.map (fun t -> if t = "-" then [] else split_on ';' t) (split_on '!' (get o "res")) in
+     if Stdlib.List.length res <> Stdlib.List.length thops then failwith "thread count";
+     let ths = Array.of_list (Stdlib.List.map2 (fun ops rs ->
+         if Stdlib.List.length ops <> Stdlib.List.length rs then failwith "op count";
+         Array.of_list (Stdlib.List.map2 parse_cev ops rs)) thops res) in
+     let init = parse_step (get o "init") and final = parse_step (get o "final") in
+     (* specification side: the oracle *)
+     let s0 = Stdlib.List.fold_left (fun s op -> fst (Peers.sstep s op)) Peers.pspec_empty pre in
+     let sobs s i k = Peers.sobserve i k Peers.PUnit s in
+     if sobs s0 ids keys <> init then out := "BAD\tside=impl\tclause=state after the sequential prefix" :: !out
+     else if not (linearizable Peers.sstep sobs s0 ths (fun s -> sobs s ids keys = final)) then
+       out := "BAD\tside=impl\tclause=not linearizable" :: !out;
+     (* concrete model side *)
+     let m0 = Stdlib.List.fold_left (fun s op -> fst (Peers.pstep s op)) Peers.preg_empty pre in
+     let mobs s i k = Peers.observe i k Peers.PUnit s in
+     if mobs m0 ids keys <> init then out := "DIFF\tfields=init" :: !out
+     else if not (linearizable Peers.pstep mobs m0 ths (fun s -> mobs s ids keys = final)) then
+       out := "DIFF\tfields=no_sequential_order(model)" :: !out);
+  !out
+
 let step _ cs os =
   let f = fields cs and o = fields os in
+  if get_opt f "k" = Some "conc" then step_conc f o else
   let ids = nlist (get f "ids") and keys = nlist (get f "keys") in
   let ops = let s = get f "ops" in if s = "-" then [] else Stdlib.List.concat (Stdlib.List.map parse_ops (split_on ';' s)) in
   let out = ref [] in
